@@ -192,6 +192,9 @@ func (r *runner) runTwin(sc *Scenario) (*twin, bool) {
 		tw.trace.before(n)
 		err := n.exec(s)
 		r.res.Hit("op:" + s.Op)
+		if s.Op == "rejected" && err == nil {
+			r.res.Hit("rejected:" + errClass(n.rejectErr))
+		}
 		tw.trace.step(s, err, n, store)
 		if err != nil {
 			r.violate(sc, "fault-free-"+s.Op+"-fails", fmt.Sprintf("step %d %s failed without any injected fault: %v", i, s, err),
@@ -253,7 +256,7 @@ func (r *runner) checkCrashPoints(sc *Scenario, tw *twin) {
 			}
 		case d == digBefore:
 			w = before
-			if s.Op == "store" {
+			if s.Op == "store" || s.Op == "finalise" {
 				ghost = s.B
 			}
 		case singleCommitOp(s.Op):
@@ -462,7 +465,8 @@ func (r *runner) runFault(sc *Scenario, tw *twin, k int) {
 				if c2 != "" && cause == "" {
 					cause, causeWhat = c2, w2
 				}
-				note(ps, "later-"+s.Op+"-")
+				// (named after the failed call, not after the later call that happens to expose it)
+				note(ps, "after-failed-"+failedOp+"-commit-later-")
 			}
 			continue
 		}
@@ -471,7 +475,7 @@ func (r *runner) runFault(sc *Scenario, tw *twin, k int) {
 				failedStep = i
 				all.add("fault-free-"+s.Op+"-fails", "step %d %s: %v", i, s, err)
 			} else {
-				all.add("later-"+s.Op+"-fails-after-failed-"+failedOp+"-commit", "step %d %s: %v (the injected failure was at step %d)", i, s, err, failedStep)
+				all.add("after-failed-"+failedOp+"-commit-later-call-fails", "step %d %s: %v (the injected failure was at step %d)", i, s, err, failedStep)
 			}
 			return
 		}
@@ -488,14 +492,14 @@ func (r *runner) runFault(sc *Scenario, tw *twin, k int) {
 		}
 		w := before
 		var ghost *lib.Bundle
-		if s.Op == "store" {
+		if s.Op == "store" || s.Op == "finalise" {
 			ghost = s.B
 		}
 		if s.Op == "prune" {
 			w = midPruneWorld(store, before, &s.After, func(sig, what string) { ps.add(sig, "%s", what) })
 		}
 		// in-memory filter vs what a restart would build from the surviving disk
-		if mem, err := n.memFilter(); err == nil && (s.Op == "store" || s.Op == "revert") {
+		if mem, err := n.memFilter(); err == nil && (s.Op == "store" || s.Op == "finalise" || s.Op == "revert") {
 			if disk, err := restartFilter(store, sc.Pruning); err == nil {
 				mo, do := sc.U.observeFilter(mem, w.Floor), sc.U.observeFilter(disk, w.Floor)
 				if mo != do {
@@ -524,7 +528,7 @@ func (r *runner) runFault(sc *Scenario, tw *twin, k int) {
 		if c3 != "" && cause == "" {
 			cause, causeWhat = c3, w3
 		}
-		note(qs, "after-retried-"+s.Op+"-")
+		note(qs, "after-failed-"+s.Op+"-commit-retried-")
 	}
 	if failedStep < 0 {
 		return
